@@ -525,14 +525,14 @@ def worker(task, col):
         return
     if task.get('replay'):
         v = task['replay']['violation']
-        check_case(prop, v['spec'], col, 'replay', 6, 14, ['replay', S.digest(v['spec'])])
+        common.guard(col, check_case, prop, v['spec'], col, 'replay', 6, 14, ['replay', S.digest(v['spec'])])
         return
     if task['shard'] == 0:
         for c in common.corpus(prop):
-            check_case(prop, c['spec'], col, 'corpus', task['n_hist'], task['depth'], ['corpus', c['file']])
+            common.guard(col, check_case, prop, c['spec'], col, 'corpus', task['n_hist'], task['depth'], ['corpus', c['file']])
     for i in range(task['lo'], task['hi']):
         name, sp = case_spec(prop, task['seed'], i)
-        check_case(prop, sp, col, name, task['n_hist'], task['depth'], [prop, task['seed'], i])
+        common.guard(col, check_case, prop, sp, col, name, task['n_hist'], task['depth'], [prop, task['seed'], i])
 
 
 def main(run):
